@@ -2753,6 +2753,7 @@ def orbital_equinox2equinox(epoch0, epoch, i0, arg0, lon0):
     # If i0 is zero, the procedure is different (an inclination which is tiny
     # but not zero is handled by the general expressions)
     if float(i0) == 0.0:
+        i0r = 0.0   # (also for a negative zero: atan2() below tells them apart)
         i1 = eta
         lon1 = pie + p + 180.0
         if eta < 0.0:
